@@ -1,0 +1,97 @@
+//go:build verif
+
+package aggsender
+
+// Hook for the /verif checks of properties C02 and C03: an AggSender made of the REAL parts (SQL storage, base flow,
+// PP flow, certificate status checker, bridge data querier) around caller-supplied edges (Agglayer client, L2 bridge
+// syncer, L1 info tree querier, LER querier, signer), and a way to run exactly one iteration of the REAL
+// sendCertificates loop for an epoch event or for a status-check tick. Thin wrappers only.
+
+import (
+	"context"
+	"time"
+
+	"github.com/agglayer/aggkit/agglayer"
+	"github.com/agglayer/aggkit/aggsender/config"
+	"github.com/agglayer/aggkit/aggsender/db"
+	"github.com/agglayer/aggkit/aggsender/flows"
+	"github.com/agglayer/aggkit/aggsender/query"
+	"github.com/agglayer/aggkit/aggsender/statuschecker"
+	"github.com/agglayer/aggkit/aggsender/types"
+	aggkitcommon "github.com/agglayer/aggkit/common"
+	"github.com/agglayer/aggkit/log"
+	signertypes "github.com/agglayer/go_signer/signer/types"
+)
+
+// VerifEpochNotifierC02 delivers exactly the epoch events pushed by VerifStepC02.
+type VerifEpochNotifierC02 struct {
+	ch    chan types.EpochEvent
+	epoch uint64
+}
+
+func (n *VerifEpochNotifierC02) Subscribe(string) <-chan types.EpochEvent { return n.ch }
+func (n *VerifEpochNotifierC02) Start(context.Context)                    {}
+func (n *VerifEpochNotifierC02) GetEpochStatus() types.EpochStatus {
+	return types.EpochStatus{Epoch: n.epoch}
+}
+func (n *VerifEpochNotifierC02) String() string { return "verif epoch notifier" }
+
+type verifEpochInfoC02 struct{}
+
+func (verifEpochInfoC02) String() string { return "verif" }
+
+// VerifAggSenderC02 is the sender plus the handles the harness needs.
+type VerifAggSenderC02 struct {
+	Sender   *AggSender
+	base     types.AggsenderFlowBaser
+	notifier *VerifEpochNotifierC02
+}
+
+// NewVerifAggSenderC02 wires the real components the way New / flows.NewFlow do for the PP flow.
+func NewVerifAggSenderC02(logger *log.Logger, storage db.AggSenderStorage, client agglayer.AgglayerClientInterface,
+	l2Syncer types.L2BridgeSyncer, l1Querier types.L1InfoTreeDataQuerier, lerQuerier types.LERQuerier,
+	signer signertypes.Signer, retryCertAfterInError bool, startL2Block uint64) *VerifAggSenderC02 {
+	bridgeQuerier := query.NewBridgeDataQuerier(logger, l2Syncer, time.Second)
+	base := flows.NewBaseFlow(logger, bridgeQuerier, storage, l1Querier, lerQuerier,
+		flows.NewBaseFlowConfig(0, startL2Block, false))
+	flow := flows.NewPPFlow(logger, base, storage, l1Querier, bridgeQuerier, signer, false, 0)
+	notifier := &VerifEpochNotifierC02{ch: make(chan types.EpochEvent, 1)}
+	a := &AggSender{
+		log:               logger,
+		storage:           storage,
+		aggLayerClient:    client,
+		flow:              flow,
+		epochNotifier:     notifier,
+		cfg:               config.Config{MaxRetriesStoreCertificate: 1, RetryCertAfterInError: retryCertAfterInError},
+		rateLimiter:       aggkitcommon.NewRateLimit(aggkitcommon.RateLimitConfig{}),
+		status:            &types.AggsenderStatus{Status: types.StatusNone},
+		l2OriginNetwork:   l2Syncer.OriginNetwork(),
+		certStatusChecker: statuschecker.NewCertStatusChecker(logger, storage, client, l2Syncer.OriginNetwork()),
+	}
+	return &VerifAggSenderC02{Sender: a, base: base, notifier: notifier}
+}
+
+// VerifInitialStatusC02 is what Start does before entering the loop (minus the compatibility check).
+func (v *VerifAggSenderC02) VerifInitialStatusC02(ctx context.Context) error {
+	v.Sender.certStatusChecker.CheckInitialStatus(ctx, time.Millisecond, v.Sender.status)
+	return v.Sender.flow.CheckInitialStatus(ctx)
+}
+
+// VerifStepC02 runs exactly ONE iteration of the real sendCertificates loop (returnAfterNIterations = 1):
+// for an epoch event when epoch is true (the status ticker is off, one event is waiting on the epoch channel),
+// otherwise for a status-check tick (the ticker fires, no epoch event is waiting).
+// maxCertSize is the flow's MaxCertSize during this iteration.
+func (v *VerifAggSenderC02) VerifStepC02(ctx context.Context, epoch bool, maxCertSize uint) {
+	flows.VerifSetMaxCertSizeC02(v.base, maxCertSize)
+	if epoch {
+		v.Sender.cfg.CheckStatusCertificateInterval.Duration = 0
+		v.notifier.epoch++
+		v.notifier.ch <- types.EpochEvent{Epoch: v.notifier.epoch, ExtraInfo: verifEpochInfoC02{}}
+	} else {
+		v.Sender.cfg.CheckStatusCertificateInterval.Duration = time.Microsecond
+	}
+	v.Sender.sendCertificates(ctx, 1)
+}
+
+// VerifLastErrorC02 is the error recorded by the last sendCertificate of the loop ("" when none).
+func (v *VerifAggSenderC02) VerifLastErrorC02() string { return v.Sender.status.LastError }
